@@ -132,7 +132,7 @@ static std::string run(const Sx& c) {
         const CovAniso* cv = model->getCova(is);
         o << (is ? " " : "") << "(" << sx_vd(cv->getScales()) << " " << mat(cv->getAnisoRotMat(), ndim, ndim) << " "
           << sx_d(cv->getCova()->getContext().getField()) << " " << sx_d(cv->getScadef()) << " " << sx_d(cv->getCova()->evalCov(0.)) << " "
-          << mat(cv->getSill(), nvar, nvar) << " " << (cv->isConsistent(&space) ? 1 : 0) << " " << sx_vd(cv->getRanges()) << ")";
+          << mat(cv->getSill(), nvar, nvar) << " " << (cv->isConsistent(&space) ? 1 : 0) << " " << sx_vd(cv->getRanges()) << " " << sx_d(cv->getParam()) << ")";
       }
       o << ") (";
       bool first = true;
@@ -167,6 +167,30 @@ static std::string run(const Sx& c) {
     o << ")";
     for (auto p : covs) delete p;
     delete model;
+  } else if (kind == 3 || kind == 4) {
+    // (3 type param scale degree (alpha...)) : ACovFunc::evalCovOnSphere ; (4 type param scale n) : evalSpectrumOnSphere
+    CovContext ctxt(1, 2);
+    ACovFunc* f = nullptr; int ok = 1;
+    try {
+      f = CovFactory::createCovFunc(ECov::fromValue((int) c[1].i()), ctxt);
+      if (f == nullptr) ok = 0; else if (f->hasParam()) f->setParam(c[2].d());
+    } catch (...) { ok = 0; }
+    o << "(" << ok;
+    if (ok) {
+      double scale = c[3].d(); int n = (int) c[4].i();
+      o << " " << (f->hasCovOnSphere() ? 1 : 0) << " " << (f->hasSpectrumOnSphere() ? 1 : 0) << " ";
+      if (kind == 3) {
+        o << "(";
+        bool first = true;
+        for (auto& a : c[5].l) { double v = f->hasCovOnSphere() ? f->evalCovOnSphere(a.d(), scale, n) : TEST; o << (first ? "" : " ") << sx_d(v); first = false; }
+        o << ")";
+      } else {
+        VectorDouble sp = f->hasSpectrumOnSphere() ? f->evalSpectrumOnSphere(n, scale) : VectorDouble();
+        o << sx_vd(sp);
+      }
+    }
+    o << ")";
+    delete f;
   } else if (kind == 2) {
     // (2 ndim order (codes to construct)): acceptance of every structure in that space dimension
     int ndim = (int) c[1].i();
